@@ -529,3 +529,27 @@ func first(a, _ []byte) []byte { return a }
 //@     invariant 0 <= depth && depth <= len(keyS)
 //@     invariant n.pointer == nil || okRef(n)
 //@     decreases len(keyS) - depth
+
+//@ spec isNodeT(o) = atype(o) == typeid(node4) || atype(o) == typeid(node16) || atype(o) == typeid(node48) || atype(o) == typeid(node256)
+//@ spec slotOf(ref, t) = ref.obj != nil && allocated(ref.obj) && (ref.obj == t && ref.idx == 0 || inT(ref.obj) && isNodeT(ref.obj))
+
+//@ func (*alphaSortedTree[K,V]).Size
+//@   requires t != nil
+//@   ensures[result] result == t.size
+//@   ensures[pure] frame()
+
+//@ func (*alphaSortedTree[K,V]).Delete
+//@   opt bind K=[]byte
+//@   opt casts on
+//@   opt extent on
+//@   requires WF1_alpha(t)
+//@   assume_at_call (*nodeRef).deleteChild : implies(isMerge(*ptr) && survT(*ptr, b) != 4, survP(*ptr, b) != ptr.obj && as(node, survP(*ptr, b)).prefixLen + as(node4, (*ptr).pointer).prefixLen + 1 < 4294967296)
+//@   ensures[wf] WF1_alpha(t)
+//@   ensures[size] t.size == old(t.size) - ite(result, 1, 0)
+//@   ensures[noop_frame] implies(!result, frame())
+//@   loop 1 (depth)
+//@     invariant 0 <= depth && depth <= len(keyS)
+//@     invariant n.pointer == (*ref).pointer && n.tag == (*ref).tag
+//@     invariant n.pointer == nil || okRef(n)
+//@     invariant slotOf(ref, t) && ref.obj != n.pointer
+//@     decreases len(keyS) - depth
